@@ -597,6 +597,14 @@ def run(ck):
     ncell = ck.n(400, 20000)
     maxdepth = ck.n(6, 12)
     segs, meta = [], []  # meta[i] = (tag, relation, param, base index)
+    # the same in every run (also re-run under other interpreter configurations): a frustum, a sphere, coincident points with
+    # unequal diameters (must raise), a cone, a zero-diameter cylinder
+    for tag, c in (("frustum", [0.0, 0.0, 0.0, 2.0, 3.0, 4.0, 12.0, 4.0]), ("sphere", [1.0, 2.0, 3.0, 5.0, 1.0, 2.0, 3.0, 5.0]),
+                   ("coincident-unequal-diameters", [1.0, 2.0, 3.0, 5.0, 1.0, 2.0, 3.0, 4.0]),
+                   ("cone", [0.0, 0.0, 0.0, 2.0, 0.0, 0.0, 8.0, 0.0]), ("cylinder", [0.5, 0.25, 0.0, 0.0, 4.5, 0.25, 0.0, 0.0])):
+        segs.append(c)
+        meta.append((tag, "base", None, len(segs) - 1))
+        ck.tally("seg:" + tag)
     for _ in range(nbase):
         tag, c = gen_segment(rng)
         b = len(segs)
@@ -606,7 +614,21 @@ def run(ck):
         for rel, par, v in variants(rng, tag, c):
             segs.append(v)
             meta.append((tag, rel, par, b))
-    cells = [gen_cell(rng, maxdepth) for _ in range(ncell)]
+    # deterministic cells whose segment ids are beyond 2^53 (xs:nonNegativeInteger is unbounded): an id that takes a detour
+    # through a float resolves to another segment.  Ids are looked up by the library; the model sees the chain only.
+    def bigid_cell(ids, fr):
+        ch = [{"prox": None, "dist": [8.0, 12.0, 0.0, 1.0], "fract": fr},
+              {"prox": None, "dist": [16.0, 0.0, 4.0, 2.0], "fract": 0.5},
+              {"prox": [-4.0, -8.0, 2.0, 6.0], "dist": [0.0, 8.0, 0.0, 4.0], "fract": 1.0}]
+        return {"exact": True, "chain": ch, "ids": ids, "extra": 2, "order": [4, 2, 0, 1, 3]}
+    big_cells = [bigid_cell([2 ** 53 + 1, 2 ** 53 + 2, 2 ** 53 + 3], 0.25), bigid_cell([2 ** 53 + 3, 2 ** 53 + 1, 2 ** 53], 1.0),
+                 bigid_cell([2 ** 62 + 5, 2 ** 62 + 3, 2 ** 62], 0.75), bigid_cell([2 ** 62 + 1, 2 ** 62 + 6, 2 ** 62 + 2], 0.0),
+                 bigid_cell([2 ** 63 - 1, 2 ** 63 - 3, 2 ** 63 - 2], 0.5), bigid_cell([2 ** 31, 2 ** 31 + 1, 2 ** 32 + 7], 0.25)]
+    # ... each also queried for its middle segment (the parent lookup inside get_actual_proximal uses the ids too)
+    big_cells += [dict(c, chain=c["chain"][1:], ids=c["ids"][1:], extra=2, order=[3, 1, 0, 2]) for c in big_cells[:5]]
+    for c in big_cells:
+        ck.tally("cell:segment-ids-beyond-2^53" if max(c["ids"]) > 2 ** 53 else "cell:segment-ids-beyond-2^31")
+    cells = big_cells + [gen_cell(rng, maxdepth) for _ in range(ncell)]
     payload = {"seg": [[float(x).hex() for x in c] for c in segs],
                "cell": [{"chain": [{"prox": [float(x).hex() for x in sg["prox"]] if sg["prox"] is not None else None,
                                     "dist": [float(x).hex() for x in sg["dist"]], "fract": float(sg["fract"]).hex()}
@@ -620,6 +642,26 @@ def run(ck):
     payload["hist"] = hists
     payload["seghist"] = seghists
     res = ck.impl("c12_impl.py", payload, timeout=1200)
+    # the interpreter's configuration is not an input: the deterministic part again under `python -O` (asserts stripped) and
+    # with another hash seed from another working directory; the answers must be identical
+    sub = {"seg": payload["seg"][:30], "cell": payload["cell"][:len(big_cells) + 20], "hist": hists[:40], "seghist": seghists[:5]}
+    ref_sub = {"seg": res["seg"][:30], "cell": res["cell"][:len(big_cells) + 20], "hist": res["hist"][:40], "seghist": res["seghist"][:5]}
+    for label, kw in (("python-O", {"pyflags": ["-O"]}), ("PYTHONHASHSEED=3-cwd=/", {"extra_env": {"PYTHONHASHSEED": "3"}, "cwd": "/"})):
+        try:
+            r2 = ck.impl("c12_impl.py", sub, timeout=600, **kw)
+        except Exception as e:  # noqa: BLE001
+            ck.witness("C12:interpreter-configuration:%s:raises" % label, "the implementation run under %s failed: %s" % (label, str(e)[-300:]),
+                       input={"configuration": label}, observed=str(e)[-300:])
+            continue
+        for part in ("seg", "cell", "hist", "seghist"):
+            for k, (inp, a, b) in enumerate(zip(sub[part], ref_sub[part], r2[part])):
+                ck.tally("other-interpreter-configuration:" + label)
+                if a != b:
+                    ck.witness("C12:interpreter-configuration:%s" % label, "under %s the %s answers differ from the default interpreter"
+                               % (label, {"seg": "Segment property", "cell": "cell-level getter", "hist": "history",
+                                          "seghist": "segment history"}[part]),
+                               input={"configuration": label, "part": part, "case": inp}, expected=a, observed=b)
+                    break
     souts, couts = res["seg"], res["cell"]
     couts = [[o[0] if isinstance(o[0], str) else [float.fromhex(v) for v in o[0]], o[1], o[2], o[3]] for o in couts]
     # ---------------------------------------------------------------- correspondence: kernel evaluates the float reading
